@@ -59,10 +59,19 @@ KINDS_C = [
     "a TESTABILITY refactor (dependency injection): something hard-wired in the anchored code - the assignment / matching solver, the random generator, the clock, the plotting axes factory, the kernel or weight function - becomes an optional parameter that defaults to today's choice, and the pure numerical core is separated from its I/O shell; results with the defaults unchanged",
     "a CONSISTENCY change between sibling functions / methods of the anchored code: the same validation, the same empty-input behaviour, the same container type for results, the same warning text, obtained by moving the shared behaviour to one place - where the siblings genuinely differ today each keeps its own behaviour (no result changes)",
 ]
+KINDS_D = [
+    "a MODULE-EXTRACTION change: private helpers and constants of the anchored code that a sibling module duplicates (input conversion, the finite-death filter, rotation / projection constants, grid construction, validation) move into a NEW private module of the package (for example `persim/_shared.py` or `persim/landscapes/_grid.py`) and are imported from there by both; public names, signatures and behaviour unchanged, no import cycle",
+    "a CLASS-REFACTOR: a long anchored function is reorganised around a small private state object (a class or dataclass with two or three methods, or a NamedTuple for its intermediate results), or a needlessly stateful private class is flattened back into functions - public API and results unchanged",
+    "a DECORATOR / CONTEXT-MANAGER change: repeated boilerplate of the anchored public functions (argument normalisation, deprecation warnings, `np.errstate`, `warnings.catch_warnings`, timing, restoring a global setting) is factored into a private decorator or context manager applied to them with `functools.wraps` - results unchanged",
+    "an ERROR-HANDLING change: explicit exceptions with clear messages instead of obscure failures deep inside numpy for malformed input (wrong shape, NaN, negative parameters), try / except / finally tidied, early returns for trivial cases - every input that worked before gives exactly the same result",
+    "a LOOP-RESTRUCTURING change: index arithmetic and loops of the anchored code rewritten in the idiom a reviewer would ask for (`while` with a manual counter -> `for ... in range`, `range(len(x))` -> `enumerate` / `zip`, slices instead of index lists, `reversed`, `itertools.pairwise`-style neighbours, a sentinel instead of a flag) - results unchanged",
+]
 if letter >= "Q":
     KINDS = KINDS_B
 if letter >= "T":
     KINDS = KINDS_C
+if letter >= "U":
+    KINDS = KINDS_D
 
 for k, pr in enumerate(props):
     pid = pr["id"]
@@ -79,7 +88,9 @@ for k, pr in enumerate(props):
     invites = ("(a cache keyed by too little, a hoisted value that depended on the loop after all, a validation that rewrites the caller's array or silently changes dtype, a shared helper that ignores the one thing that differed, a regrouped expression that lost a term or a sign for one branch, a short-circuit taken in a case where it is not valid, a block boundary off by one, a pre-allocated buffer reused across calls)"
                if letter < "Q" else
                "(an in-place operation that reaches the caller's array or the object's stored state through a view, a generator consumed twice or measured with len(), a view returned where a copy was promised, the old alias silently winning over the new name or a sentinel compared with `==` against an array, an injected default created once at import time and shared by all calls, a local generator or clock replacing the global one, a validation moved below the first use of what it validates, the shared helper applying one sibling's convention to the other, a scratch array that still holds the previous iteration's tail)"
-               if letter >= "T" else
+               if "T" <= letter < "U" else
+               "(a helper that moved and lost a line or a default on the way, the shared helper carrying the convention of the module it came from into the other one, state kept on the object that should have been per call, a field of the state object updated in one method and read stale in another, a decorator that evaluates something once at decoration time or swallows / reorders an argument or drops the return value on one path, a context manager that does not restore on the exception path, an early return taken for an input that is not trivial, a validation that rejects or rewrites valid input, a range / slice end off by one after the rewrite, neighbours paired with the wrong offset, a loop variable reused after the loop)"
+               if letter >= "U" else
                "(the new parameter not passed on along one of two call paths or shadowing an existing name, a default evaluated once and shared, the corner-case branch taken for inputs that are not the corner case, a 'modern equivalent' whose defaults or argument order differ from the old call, an assertion or log statement that consumes an iterator / mutates / reorders what it inspects, a step extracted into a helper that returns before the last statement of the old block, a renamed variable that still exists under its old name with a stale value, two 'independent' statements that were not independent)")
     prompt = f"""You are helping test verification tooling for the Python library scikit-tda/persim (persistence-diagram tools).
 You have your OWN scratch git worktree of the repository at /tmp/wt_{hid} (work ONLY there and in /tmp/ref_{hid}; never touch /repo or /verif, do not read anything under /verif, and do NOT use `git stash` - the stash is shared between worktrees; to undo use `git -C /tmp/wt_{hid} checkout -- .` or `git apply -R`).
